@@ -216,10 +216,11 @@ Section Stmt.
     - destruct C as [[v ->]| ->]; [exact Hr|apply (proj2 Hr), not_no_sig_continue].
   Qed.
 
-  Lemma bal_while_loop (body : state -> res val) c :
-    (forall s, bal_s s (body s)) -> forall j st, bal_s st (while_loop ev body c j st).
+  Lemma bal_while_loop (body : state -> res val) c l :
+    (forall s, bal_s s (body s)) -> forall j st, bal_s st (while_loop ev body c l j st).
   Proof.
     intros Hb. induction j as [|j IH]; intros st; cbn [while_loop]; [intros _; exact I|].
+    intros W0. refine (bal_s_after _ _ _ (R_ok_s_set_line st l W0) _ W0).
     apply bal_s_bind_e; [apply Hev|]. intros cv s1 _.
     destruct cv; try apply bal_s_er_ctl. destruct b.
     - intros W. pose proof (after_pass_bal s1 (body s1) W (Hb s1)) as H.
